@@ -24,6 +24,10 @@ EXTRA = [
     # effective variables assigned AFTER the defective ones, the later one reading the earlier one
     ("effective_after", "z = 0\nw = 0\nwhile true:\n    x = 2*x + y**2 + w\n    y = 2*y - y**2 + z\n    z = z + 1 {1/2} z + 2\n    w = w + z\nend\n"),
     ("effective_after_three", "a = 1\nz = 0\nw = 0\nwhile true:\n    x = x + y**2 + w\n    y = 3*y - y**2 + a\n    a = 2 - a\n    z = z + a {1/3} z\n    w = w + 2*z\nend\n"),
+    # k = 1 with an effective part that is a non-constant polynomial in n (counter / drift)
+    ("k1_polynomial_effective_part", "z = 0\nwhile true:\n    x, y = x + x*y + z, y - x*y\n    z = z + 1 {1/2} z + 2\nend\n"),
+    # a k = 0 solution with an n-dependent effective part followed by another group
+    ("k0_then_k2", "z = 0\nwhile true:\n    x, y = z + x*y, -x*y\n    u, v = 2*u + v**2, 2*v - v**2\n    z = z + 1\nend\n"),
     ("dependent_init", "x = Bernoulli(1/2)\ny = 2*x\nwhile true:\n    s = Bernoulli(1/2)\n    if s == 0:\n        x, y = x + x*y, (1/3)*x + (2/3)*y + (x*y)\n    else:\n        x, y = x + y + (2/3)*x*y, 2*y + (2/3)*(x*y)\n    end\nend\n"),
 ]
 
